@@ -93,6 +93,23 @@ func selfCheck(ctx *report.Ctx, prop, repo, verif string) {
 		}
 	}
 	sort.Strings(patches)
+	// independently seeded changes of this property: seeded/<prop><x>/patch.diff
+	full := map[string]string{}
+	for _, pn := range patches {
+		full[pn] = filepath.Join(dir, pn)
+	}
+	if sds, err := os.ReadDir(filepath.Join(verif, "seeded")); err == nil {
+		for _, sd := range sds {
+			if sd.IsDir() && strings.HasPrefix(sd.Name(), prop) {
+				pf := filepath.Join(verif, "seeded", sd.Name(), "patch.diff")
+				if _, err := os.Stat(pf); err == nil {
+					name := "seeded/" + sd.Name()
+					patches = append(patches, name)
+					full[name] = pf
+				}
+			}
+		}
+	}
 	base := failingKeys(ctx, verif)
 	type result struct {
 		Patch   string   `json:"patch"`
@@ -109,6 +126,9 @@ func selfCheck(ctx *report.Ctx, prop, repo, verif string) {
 		if strings.HasPrefix(pn, "neutral-") {
 			kind = "neutral"
 		}
+		if strings.HasPrefix(pn, "seeded/") {
+			kind = "seeded"
+		}
 		r := result{Patch: pn, Kind: kind}
 		tmp, err := os.MkdirTemp("", "cvsslint-self-")
 		if err != nil {
@@ -123,7 +143,7 @@ func selfCheck(ctx *report.Ctx, prop, repo, verif string) {
 				r.Outcome = "skipped: copy failed: " + err.Error()
 				return
 			}
-			cmd := exec.Command("patch", "-p1", "-s", "-f", "--no-backup-if-mismatch", "-i", filepath.Join(dir, pn))
+			cmd := exec.Command("patch", "-p1", "-s", "-f", "--no-backup-if-mismatch", "-i", full[pn])
 			cmd.Dir = scratch
 			if out, err := cmd.CombinedOutput(); err != nil {
 				r.Outcome = "skipped: patch does not apply to the current tree (" + strings.TrimSpace(firstLine(string(out))) + ")"
@@ -151,9 +171,9 @@ func selfCheck(ctx *report.Ctx, prop, repo, verif string) {
 			}
 			r.Reports = added
 			switch {
-			case kind == "mutant" && len(added) > 0:
+			case kind != "neutral" && len(added) > 0:
 				r.Outcome = "caught"
-			case kind == "mutant":
+			case kind != "neutral":
 				r.Outcome = "MISSED"
 				failures = append(failures, pn+" (a property-breaking edit was not reported)")
 			case len(added) == 0:
